@@ -50,6 +50,11 @@ def add_loopless(model: "Model", zero_cutoff: Optional[float] = None) -> None:
     s_int = create_stoichiometric_matrix(model)[:, np.array(internal)]
     n_int = nullspace(s_int).T
     max_bound = max(max(abs(b) for b in r.bounds) for r in model.reactions)
+    if not np.isfinite(max_bound):
+        raise ValueError(
+            "The loopless formulation needs finite bounds on all reactions "
+            "(the largest bound is used as big-M)."
+        )
     prob = model.problem
 
     # Add indicator variables and new constraints
